@@ -18,6 +18,6 @@ PROP = dict(
           "-confidence; duplicate paths (labelled, or the same file once labelled and once bare), results before any configuration line, -table "", one metric in two spellings, >1024 distinct units (1 in 150), configuration values containing % verbs, plain integers around 2^63, name parts that merely start like a projectable key; each expected warning is compared together with the output row it refers to. Non-trivial = >=2 columns, >=2 rows, >=1 non-default flag and >=1 cell with a baseline. Distinct = distinct case JSON."),
     assumptions=["benchmath computes correct per-sample statistics (C13)", "reference models in harness/lib reflect the documentation"],
     units=[
-        R("rapid", "B", "./cmd/benchstat", "TestC14Rapid", (1200, 8), (12000, 16)),
+        R("rapid", "B", "./cmd/benchstat", "TestC14Rapid", (1200, 16), (12000, 16)),
     ],
 )
